@@ -40,13 +40,32 @@ CT = {'bool': '_Bool', 'int': 'u32', 'unsigned': 'u32'}
 
 def make(tier):
     P = Plan('C17', level='proof', design_ref='DESIGN.md section 5 C17')
-    P.not_decided += ['heap types: grid, tree, raw_vector, shared_ptr/unique_ptr (std::vector/std::list/control-block code under symbolic shapes)', 'recursive / type_iso wrappers']
+    P.not_decided += ['heap value types tree (bounded under C09), raw_vector (bounded under C07); unique_ptr / shared_ptr / weak_ptr / recursive / reference are bounded scenarios', 'type_iso wrappers']
     P.meta += ['== is an equivalence because it is proved equal to equality of the observable component tuple; strict weak order = irreflexive + transitive + transitive incomparability, each proved for three fully symbolic values']
     make_strong(P)
     for t in TYPES:
         make_type(P, t)
     make_grid(P)
+    make_ptr(P)
     return P
+
+
+def make_ptr(P):
+    """pointer-like wrappers expose exactly the wrapped object: scenario functions returning a violation mask (lemma jobs, heap, no --dfcc)"""
+    SC = {'vf_unique': ('ptr', ['make_unique_ptr holds the value', 'get_pointer() is the address of the object', 'moving the unique_ptr moves ownership, the object stays', 'unique_ptr_to_const keeps the object']),
+          'vf_recursive': ('ptr', ['recursive holds the value', 'a copy is equal and independent (deep copy)', 'writes through get() affect only that object', '== compares the wrapped values', 'copy assignment is deep', 'move keeps the value']),
+          'vf_reference': ('ptr', ['reference refers to the object it was made from', 'writes go to the referenced object', 'a copy refers to the same object', 'assignment rebinds only the assigned reference']),
+          'vf_shared': ('shared', ['make_shared_ptr: value, unique, use_count 1', 'a copy shares the object (use_count 2)', 'writes are visible through every owner', '==, !=, < compare the pointers (equal for owners of one object)', 'use_count drops when an owner dies',
+                                   'distinct objects compare unequal and are totally ordered', 'a weak_ptr does not own', 'weak_ptr::lock yields an owner of the same object', 'moving keeps the object', 'the object dies with its last owner: weak_ptr expired, lock yields nothing'])}
+    units = {}
+    for f, (un, msgs) in SC.items():
+        h = 'void h_%s(void){ VF_IN(u32, x); VF_IN(u32, y); u32 bad = %s(x, y);\n' % (f[3:], f) + ''.join('  __CPROVER_assert((bad & %du) == 0, "%s");\n' % (1 << k, m) for k, m in enumerate(msgs)) + '  VF_PROBE(); }\n'
+        units.setdefault(un, []).append((f, h, msgs))
+    for un, lst in units.items():
+        P.generated['%s_h.c' % un] = ''.join(h for _, h, _ in lst)
+        u = P.unit(un, un + '.cpp', harness=['%s_h.c' % un], inline=True)
+        for f, h, msgs in lst:
+            u.lemma('h_' + f[3:], cls='B', unwind=4, mem=16, bound='one scenario with symbolic values (heap objects: new/delete, control block)', backends=['sat'], cbmc=['--slice-formula', '--memory-leak-check'], timeout=900, what='%s: %s' % (f[3:], '; '.join(msgs)))
 
 
 def make_grid(P):
